@@ -3,7 +3,7 @@ import base64
 import json
 import os
 
-from core import Result
+from core import Result, guard
 from protocol import enc_tree, dec_tree, canon_tree, enc_str, dec_str
 
 RULE = ("stream cipher: random 32-byte keys x plaintext lengths 0..80, 255, 256, 1000 (incl. non-UTF-8) x methods aes/xor/best "
@@ -323,9 +323,9 @@ def stream_stored(ctx, res, n):
 
 def run(ctx):
     res = Result()
-    stream_cipher(ctx, res, ctx.n(4, 40))
-    stream_b64(ctx, res, ctx.n(1500, 60000))
-    stream_stored(ctx, res, ctx.n(20, 400))
+    guard(res, "C08", stream_cipher, ctx, res, ctx.n(4, 40))
+    guard(res, "C08", stream_b64, ctx, res, ctx.n(1500, 60000))
+    guard(res, "C08", stream_stored, ctx, res, ctx.n(20, 400))
     return res
 
 
